@@ -316,7 +316,7 @@ fn short_history(rng: &mut Rng, ctx: &mut Ctx) -> Result<(), (Bad, Vec<String>)>
                 // prefixes and namespaces (default namespace in scope, redeclared / undeclared below): every node
                 // name read back must be the id of its expanded name
                 let locals = ["a", "b", "id", "space", "p", "A", "title"];
-                let uris = ["urn:A", "A", "u", "a", "u v"];
+                let uris = ["urn:A", "A", "u", "a", "u v", "u ", " u"];
                 // a space inside a declaration value may be written as a literal TAB or LF (attribute-value normalisation)
                 let spell = |rng: &mut Rng, u: &str| -> String { u.chars().map(|c| if c == ' ' { *rng.pick(&[' ', '\t', '\n']) } else { c }).collect() };
                 let dflt: Option<&str> = if rng.chance(2, 3) { Some(uris[rng.below(uris.len())]) } else { None };
@@ -564,9 +564,13 @@ fn short_history(rng: &mut Rng, ctx: &mut Ctx) -> Result<(), (Bad, Vec<String>)>
                 fresh += 1;
                 let (e, at, pfx) = (format!("fe{}", fresh), format!("fat{}", fresh), format!("fpx{}", fresh));
                 let uri = format!("urn:fu{}", fresh);
-                let text = match rng.below(3) {
+                let text = match rng.below(6) {
                     0 => format!("<{e} {at}=\"v\"><{pfx}:x xmlns:{pfx}=\"{uri}\"></{e}>"),
                     1 => format!("<{e} {at}=\"v\" {at}=\"w\"/>"),
+                    // abandoned while elements with a default namespace / a hot prefix are still open
+                    2 => format!("<{e} xmlns=\"{uri}\"><x>"),
+                    3 => format!("<{e} xmlns=\"{uri}\" xmlns:p=\"{uri}\"><y></{e}>"),
+                    4 => format!("<{e} xmlns=\"{uri}\"><x><y xmlns=\"urn:A\">t"),
                     _ => format!("<{e}><{pfx}:y/></{e}>"),
                 };
                 log.push(format!("parse({:?}) [rejected]", text));
@@ -576,7 +580,7 @@ fn short_history(rng: &mut Rng, ctx: &mut Ctx) -> Result<(), (Bad, Vec<String>)>
                     Ok(Ok(_)) => return Err((("parse-accepted-ill-formed".into(), text), log.clone())),
                     Err(p) => return Err((("panic".into(), p.short()), log.clone())),
                 }
-                for m in [e, at, pfx, uri, "x".to_string(), "y".to_string()] {
+                for m in [e, at, pfx, uri, "x".to_string(), "y".to_string(), "p".to_string(), "urn:A".to_string()] {
                     target.m.maybe.push(m);
                 }
                 // the very next registrations are fresh strings
